@@ -148,7 +148,7 @@ theorem unrollC_spec : ∀ (c : Cmd), (∀ s, semL (unrollC c) s = sem c s) ∧ 
     have h := unrollL_spec body
     refine ⟨?_, ?_⟩
     · intro s; simp only [unrollC, semL, sem, h.1]
-    · simp [unrollC, countElems, countElem]
+    · simp [unrollC, countElems, countElem, h.2]
   | .note a b c d e f g h => ⟨fun s => by simp [unrollC, semL], by simp [unrollC, countElems]⟩
   | .noteN a b c d e => ⟨fun s => by simp [unrollC, semL], by simp [unrollC, countElems]⟩
   | .rest a b => ⟨fun s => by simp [unrollC, semL], by simp [unrollC, countElems]⟩
